@@ -364,6 +364,7 @@ Plan gen_w1(uint64_t seed, const std::string& tier, const std::string& focus) {
     for (int k = 0; k < n; k++) {
         std::string pre = "c" + std::to_string(k) + "_";
         int kind = 0; double u = r.uni(); if (focus != "C15" && u > 0.7) kind = (u > 0.9) ? 4 : (u > 0.8 ? 1 : 2);
+        if (focus == "C15" && u > 0.6) kind = (u > 0.8) ? 3 : 2;     // separated cells of several (moving) types: lumen, nucleus
         pl.p[pre + "kind"] = kind; pl.p[pre + "shape"] = (int)r.below(3); pl.p[pre + "res"] = r.coin(0.75) ? 1 : 2;
     }
     // growth / division / removal scenario
@@ -382,6 +383,7 @@ Plan gen_w1(uint64_t seed, const std::string& tier, const std::string& focus) {
     if (r.coin(0.3)) pl.p["init_pressure"] = r.uni(10, 300);
     if (r.coin(0.2)) pl.p["area_elasticity"] = 1e-15;
     if (r.coin(0.2)) pl.p["bending"] = 2e-18;
+    if (r.coin(0.25)) { pl.p["bending_other"] = r.coin(0.5) ? 2e-18 : 0.0; if (r.coin(0.5)) pl.p["area_elasticity_other"] = r.coin(0.5) ? 1e-15 : 0.0; }   // per-type energies
     if (r.coin(0.2)) pl.p["angle_reg"] = 1e-18;
     if (r.coin(0.3)) pl.p["id_scheme"] = r.range(1, 2);
     pl.p["clock"] = (focus == "C15") ? 0 : (int)r.below(3);
